@@ -253,12 +253,29 @@ def run(a, res):
         for s in states:
             table.pop(s["path"], None)
 
+    def squid_time():
+        import email.utils
+        for line in lab.sq.mgr("info").splitlines():
+            if line.startswith("Current Time:"):
+                return email.utils.parsedate_to_datetime(line.split(":", 1)[1].strip()).timestamp()
+        return None
+
+    def check_hook():
+        """the clock hook must move squid's notion of now (independent of the refresh logic under test); else harness failure"""
+        offset[0] += 1000
+        lab.sq.set_clock(offset[0])
+        st = squid_time()
+        if st is None or abs(st - now()) > 5:
+            raise RuntimeError(f"clock hook H1 inactive: squid says {st}, expected about {now()} (binary without -DSQUID_VERIF?)")
+        res.count("clock_hook_verified")
+
     nb = (a.cases + B - 1) // B
     if a.replay_data and "case" in a.replay_data:
         batches = [gen_batch(a.replay_data.get("seed", a.seed), a.replay_data["case"])]
     else:
         batches = [gen_batch(a.seed, b) for b in range(nb)]
     try:
+        check_hook()
         for bt in batches:
             run_batch(bt)
             if not lab.sq.alive():
